@@ -126,6 +126,9 @@ def _worker(args):
                 if nt and fk not in seen_feat and len(st['samples']) < 4:
                     seen_feat.add(fk)
                     st['samples'].append((spec.sample_fn or spec.describe)(case))
+                elif not nt and not st.get('fallback'):
+                    # evidence always shows a generated case, even from a tiny run
+                    st['fallback'] = [(spec.sample_fn or spec.describe)(case)]
                 for f in fails:
                     if f.clause not in st['failures']:
                         st['failures'][f.clause] = f.detail
@@ -296,6 +299,7 @@ def main(pid: str, argv=None):
             for k, v in r['features'].items():
                 merged['features'][k] = merged['features'].get(k, 0) + v
             merged['samples'].extend(r['samples'][:2])
+            merged.setdefault('fallback', []).extend(r.get('fallback', [])[:1])
             for c, d in r['failures'].items():
                 merged['failures'].setdefault(c, (r['w'], d))
         # ---- shrink each bucket (bounded), in parallel
@@ -340,7 +344,7 @@ def main(pid: str, argv=None):
         'evaluations': merged['evaluations'] + replayed,
         'distinct_nontrivial': len(merged['nontrivial']),
         'rule': spec.rule,
-        'samples': merged['samples'][:8],
+        'samples': merged['samples'][:8] or merged.get('fallback', [])[:2],
         'feature_histogram': dict(sorted(merged['features'].items())),
         'replayed_regression_inputs': replayed,
         'workers': jobs, 'examples_per_worker': n,
